@@ -320,6 +320,11 @@ func checkC13(c *Ctx) {
 				c13Scenario(cs, base, f, nil, true, fmt.Sprintf("%s/fault:%d/auto-then-manual", cs.Name, n))
 				c.AddEvaluations(2)
 			}
+			if !auto && second == nil && !isPermFault(f.kind) && f.kind != "vanish" && f.kind != "replace-invalid" && nameHash(fmt.Sprintf("%s/%d", cs.Name, n))%3 == 0 {
+				// (file and directory faults alike: reconfigured with the same directories in between)
+				c13Scenario(cs, base, f, nil, true, fmt.Sprintf("%s/fault:%d/auto-reconfigured", cs.Name, n))
+				c.AddEvaluations(1)
+			}
 		}
 	})
 	// the package-level default cache, whose first use in a process is the explicit
@@ -748,14 +753,33 @@ func c13Scenario(cs *Case, base *Pop, f c13Fault, second *c13Fault, auto bool, n
 			tags["switched"] = "auto-to-manual-before-repair"
 			c.Count("auto_caches_switched_to_manual_before_repair", 1)
 		}
+		if ac != nil && strings.HasSuffix(name, "/auto-reconfigured") {
+			// the cache is told the same directories once more (and stays in auto-refresh
+			// mode): the fault is still there, the repair comes afterwards
+			o, reuse := withDirs(append(append([]string{}, p.Conf...), filepath.Join(p.Root, "anchor")))
+			cache.Configure(o)
+			reuse()
+			c.Count("auto_caches_reconfigured_with_the_same_directories_before_repair", 1)
+			makeReport(cache, false)
+		}
 		q := repair()
-		if ac != nil && !ac.Quiesce() {
+		quiesce := func() bool {
+			if strings.HasSuffix(name, "/auto-reconfigured") {
+				// (a cache that no longer hears of changes in its directories after being told
+				// the same directories again is judged by the comparison below, provided a
+				// cache created now does hear of them)
+				dirs := append(append([]string{}, p.Conf...), filepath.Join(p.Root, "anchor"))
+				return ac.QuiesceOrControl(filepath.Join(p.Root, "anchor"), dirs)
+			}
+			return ac.Quiesce()
+		}
+		if ac != nil && !quiesce() {
 			c.Inconclusive("quiesce-timeout")
 			return
 		}
 		if ac != nil {
 			makeReport(cache, false)
-			if !ac.Quiesce() {
+			if !quiesce() {
 				c.Inconclusive("quiesce-timeout")
 				return
 			}
